@@ -405,6 +405,7 @@ type vfE4Phase struct {
 	gates    []chan struct{}
 	gateOpen bool
 	onAof    func(point int)
+	manualCompaction bool // C16: the caller drives the compaction goroutines itself (through onAof)
 	stats  map[string]int64
 }
 
@@ -421,7 +422,7 @@ func vfNewE4Phase(in *vfInstance, rng *vfRand, prof *vfProfile, epoch byte, tr *
 			return
 		}
 		p.gmu.Lock()
-		if p.gateOpen {
+		if p.gateOpen || p.manualCompaction {
 			p.gmu.Unlock()
 			return
 		}
@@ -467,7 +468,9 @@ func (p *vfE4Phase) runTop(op vfOp) {
 	}
 	p.step++
 	vfAofQuiesce(p.in)
-	p.runCompactions()
+	if !p.manualCompaction {
+		p.runCompactions()
+	}
 	p.sh.quiescent()
 	p.sample()
 }
@@ -1089,4 +1092,41 @@ func vfCompareCarried(carried, before, restored *vfSnapshot, now int64, sigFn fu
 		}
 	}
 	return fs
+}
+
+// ---------------------------------------------------------------- log records (attribution of findings)
+
+type vfLogRec struct {
+	File    string
+	Cmd     uint8
+	Db      uint8
+	Key     [16]byte
+	LockId  [16]byte
+	AofFlag uint16
+	Flag    uint8
+}
+
+// vfReadLogRecords decodes the records of every log file of dir in load order.
+func vfReadLogRecords(dir string) []vfLogRec {
+	var out []vfLogRec
+	names := []string{}
+	if _, err := os.Stat(filepath.Join(dir, "rewrite.aof")); err == nil {
+		names = append(names, "rewrite.aof")
+	}
+	for _, i := range vfAppendIndexes(dir) {
+		names = append(names, fmt.Sprintf("append.aof.%d", i))
+	}
+	for _, n := range names {
+		b, err := os.ReadFile(filepath.Join(dir, n))
+		if err != nil {
+			continue
+		}
+		for off := 12; off+64 <= len(b); off += 64 {
+			l := NewAofLock()
+			copy(l.buf, b[off:off+64])
+			_ = l.Decode()
+			out = append(out, vfLogRec{File: n, Cmd: l.CommandType, Db: l.DbId, Key: l.LockKey, LockId: l.LockId, AofFlag: l.AofFlag, Flag: l.Flag})
+		}
+	}
+	return out
 }
